@@ -13,6 +13,12 @@ func (core *JApiCore) scanProject() (je *jerr.JApiError) {
 	defer func() {
 		// We might get an error during scanning included file, and we should return
 		// correct error in that case.
+		if je != nil && je.File != nil && je.File != core.scanner.File() {
+			// The stack describes how the file which is scanned now was reached.
+			// This error belongs to a directive of another file (it was still open
+			// when an INCLUDE below it started), which has added its own trace.
+			return
+		}
 		core.scannersStack.AddIncludeTraceToError(je)
 	}()
 
